@@ -151,6 +151,9 @@ def install(I, poll_budget=1):
     def m_rx_try_recv(I, st, f, args, fr):
         o = obj_at(I, st, args[0])
         name = I.objinfo.get(o.oid, {}).get('name', str(o.oid))
+        h = I.hooks.get('late_arrival')
+        if h:
+            h(I, st, o)     # a non-blocking read may see what another thread enqueued since the last look (sequential port models only)
         res = I.shared_op(st, o, 'try_recv', objects.chan_recv(), {'has': 'bool', 'val': objects.ID_BITS, 'closed': 'bool'}, label='%s.try_recv' % name)
         outs = []
         for s2, has in branch(I, st, res['has']):
@@ -178,6 +181,9 @@ def install(I, poll_budget=1):
     @M(r'oneshot::Receiver::<.*>::try_recv$', 'oneshot::Receiver::try_recv')
     def m_os_try_recv(I, st, f, args, fr):
         o = obj_at(I, st, args[0])
+        h = I.hooks.get('late_arrival')
+        if h:
+            h(I, st, o)
         res = I.shared_op(st, o, 'poll', objects.oneshot_poll(), {'ready_val': 'bool', 'ready_closed': 'bool', 'val': objects.ID_BITS}, label='%s.try_recv' % o.oid)
         outs = []
         for s2, has in branch(I, st, res['ready_val']):
